@@ -9,6 +9,7 @@ package gohlslib
 
 import (
 	"bytes"
+	"encoding/hex"
 	"net/http"
 	"net/url"
 	"os"
@@ -94,6 +95,7 @@ type vGhost struct {
 	segs      []*vSeg // completed
 	pending   bool    // parameter change seen since the last random access unit
 	pps       []byte  // current parameter set
+	sps       []byte
 	ppsAtInit []byte
 	tsAUCount int
 }
@@ -177,6 +179,12 @@ func (g *vGhost) accept(u *vUnit) (cut bool) {
 
 // ---------- configuration ----------
 
+// a second valid SPS (720p, high profile), for in-band parameter changes
+var verifTestSPS2 = []byte{
+	0x67, 0x64, 0x00, 0x1f, 0xac, 0xd9, 0x40, 0x50, 0x05, 0xbb, 0x01, 0x6c, 0x80, 0x00, 0x00, 0x03,
+	0x00, 0x80, 0x00, 0x00, 0x1e, 0x07, 0x8c, 0x18, 0xcb,
+}
+
 var verifTestSPS = []byte{
 	0x67, 0x42, 0xc0, 0x28, 0xd9, 0x00, 0x78, 0x02,
 	0x27, 0xe5, 0x84, 0x00, 0x00, 0x03, 0x00, 0x04,
@@ -230,7 +238,7 @@ func verifSetup() *vRun {
 	variant := MuxerVariant(verifParam("VARIANT", 2))
 	layout := verifParam("TRACKS", 0)
 	r := &vRun{}
-	g := &vGhost{variant: variant, pps: []byte{8, 0}}
+	g := &vGhost{variant: variant, pps: []byte{8, 0}, sps: verifTestSPS}
 	switch layout {
 	case 0:
 		r.tracks = []*Track{verifVideoTrack()}
@@ -324,6 +332,21 @@ func verifDirectory() string {
 	return verifDirectoryName
 }
 
+func verifLiveFiles() int {
+	if verifDirectoryName == "" {
+		return 0
+	}
+	if verifSymbolic() {
+		return len(verifFSLiveFiles())
+	}
+	es, err := os.ReadDir(verifDirectoryName)
+	if err != nil {
+		return 0
+	}
+	return len(es)
+}
+
+
 // ---------- one write ----------
 
 var verifNTPBase = time.Date(2010, 1, 1, 1, 1, 1, 0, time.UTC)
@@ -360,12 +383,23 @@ func (r *vRun) writeVideo(ti int) {
 	if verifPtsOffMax > 0 {
 		ptsOff = verifRangeI64("vptsoff", 0, verifPtsOffMax)
 	}
-	idr := kind == 0 || kind == 2
+	idr := kind == 0 || kind == 2 || kind == 4
 	var au [][]byte
 	if idr {
-		au = append(au, verifTestSPS) // the real DTS extractor needs the SPS in-band
+		sps := g.sps // the real DTS extractor needs the SPS in-band
+		if kind == 4 {
+			// in-band SPS change: alternate between two valid parameter sets
+			if bytes.Equal(g.sps, verifTestSPS) {
+				sps = verifTestSPS2
+			} else {
+				sps = verifTestSPS
+			}
+			g.pending = true
+			g.sps = sps
+		}
+		au = append(au, sps)
 	}
-	if kind >= 2 {
+	if kind == 2 || kind == 3 {
 		np := []byte{8, byte(r.k + 1)}
 		au = append(au, np)
 		if !bytes.Equal(g.pps, np) {
@@ -588,9 +622,9 @@ func (r *vRun) checkMultivariant() {
 	for _, t := range g.tracks {
 		want := "mp4a.40.2"
 		if t.video {
-			want = "avc1.42c028"
+			want = "avc1." + hex.EncodeToString(g.sps[1:4])
 		}
-		verifAssert("C16", "codecs-lists-every-track", containsCodec(v.Codecs, want))
+		verifAssert("C16", "codecs-lists-every-track-current-parameters", containsCodec(v.Codecs, want))
 	}
 	hasVideo := false
 	naudio := 0
@@ -602,7 +636,12 @@ func (r *vRun) checkMultivariant() {
 		}
 	}
 	if hasVideo {
-		verifAssert("C16", "resolution-and-frame-rate", v.Resolution == "1920x1080" && v.FrameRate != nil && *v.FrameRate > 29.99 && *v.FrameRate < 30.01)
+		wantRes := "1920x1080"
+		if !bytes.Equal(g.sps, verifTestSPS) {
+			wantRes = "1280x720"
+		}
+		verifAssert("C16", "resolution-matches-current-sps", v.Resolution == wantRes)
+		verifAssert("C16", "frame-rate-present", v.FrameRate != nil && *v.FrameRate > 0)
 	}
 	// renditions: every non-leading audio track; all audio tracks of an audio-only multi-track muxer
 	wantRend := 0
@@ -832,7 +871,7 @@ func (r *vRun) checkInit(so *vStreamObs, body []byte) {
 			latestForcedDone := !g.pending && (g.open == nil || !g.open.forced)
 			if forcedDone && latestForcedDone {
 				verifReach("init-after-change")
-				verifAssert("C02", "init-carries-new-parameters", bytes.Equal(c.PPS, g.pps))
+				verifAssert("C02", "init-carries-new-parameters", bytes.Equal(c.PPS, g.pps) && bytes.Equal(c.SPS, g.sps))
 			}
 		} else {
 			verifAssert("C02", "init-codec-type", !t.video)
@@ -975,6 +1014,9 @@ func VerifH_mux_run() {
 	verifVideoStarted = map[int]bool{}
 	verifPartLog, verifInitLog, verifMediaLog, verifMultiLog, verifTSLog = nil, nil, nil, nil, nil
 	verifPtsOffMax = int64(verifParam("PTSOFFMAX", 0))
+	if verifSymbolic() {
+		verifFSReset()
+	}
 	r := verifSetup()
 	K := verifParam("K", 5)
 	for r.k = 0; r.k < K; r.k++ {
@@ -988,6 +1030,14 @@ func VerifH_mux_run() {
 			r.writeAudio(ti)
 		}
 		r.observe()
+		if verifDirectoryName != "" {
+			// at most SegmentCount listed segments plus the one being written, per stream
+			verifAssert("C18", "directory-files-bounded", verifLiveFiles() <= len(r.m.streams)*(r.g.segCount+1))
+		}
+	}
+	if verifParam("CLOSE_AT_END", 0) == 1 {
+		r.m.Close()
+		verifAssert("C07", "directory-empty-after-close", verifLiveFiles() == 0)
 	}
 	verifReach("end")
 }
